@@ -413,3 +413,21 @@ PROPS['C10'] = dict(
     level_text='generated arguments by modulus/angle class for every complex operation in every built configuration, judged against a higher-precision reference with a fixed budget K*u*(|f|+kappa); sampling, not proof',
     level_note='trusts glibc long double complex math; quick covers 4 of 2^23 switch subsets per type, thorough 88',
 )
+
+
+def _c20(args, log):
+    import importlib.util, os
+    from . import core
+    spec = importlib.util.spec_from_file_location('c20', os.path.join(core.VERIF, 'exec', 'C20', 'c20.py'))
+    m = importlib.util.module_from_spec(spec)
+    spec.loader.exec_module(m)
+    return m.run(args, log)
+
+
+PROPS['C20'] = dict(
+    custom=_c20, level='exploration',
+    engine='enumeration of declarations (clang JSON AST + bare rustc probes) + Hypothesis value round trips',
+    technique='complete enumeration of every mirrored struct and extern declaration with compiler-computed layouts on both sides (differential oracle: clang vs rustc), plus Hypothesis-generated cross-boundary field values',
+    level_text='the finite set of mirrors and declarations is enumerated completely for both real widths from the current tree; the "value written on one side is read identically on the other" clause is exercised with generated field values',
+    level_note='trusts clang and rustc layout computation and the small lib.rs parser in exec/C20/c20.py; x86-64 only; cargo/cmake build paths not exercised',
+)
